@@ -32,6 +32,8 @@ const MULTI_ERROR: &[&str] = &[
     "begin let Ret = @(intrinsic(ret)) that let Int64 = @(intrinsic(i64)) that let Unit = @(intrinsic(unit)) that let B = data | +T : Unit | +F : Unit end that let f = { fn (x : B) (y : B) => match x | +T() => match y | +T() => ret 1 end end } that ret 0 end",
     "begin let Ret = @(intrinsic(ret)) that let Int64 = @(intrinsic(i64)) that let x : Int64 = _ that let y : Int64 = _ that let z : Int64 = _ that ret (x, y, z) end",
     "begin let Ret = @(intrinsic(ret)) that def x = nosuch1 that def y = nosuch2 that ret (x, y) end",
+    "begin let Ret = @(intrinsic(ret)) that let x = 1 that let y = 2 that let (x, y) = (3, 4) that ret 0 end",
+    "begin let Ret = @(intrinsic(ret)) that let a = 1 that let b = 2 that let c = 3 that let (c, b, a) = (3, 4, 5) that ret 0 end",
 ];
 
 impl Determinism {
@@ -202,6 +204,80 @@ impl Check for Determinism {
     }
 }
 
+/// In-process variant: blocks with an error injected into every contribution (all shapes of three
+/// contributions that contain a recursive group of sealed types), analysed under several hash seeds on
+/// fresh threads; the rendered diagnostics must be identical.
+pub struct Diagnostics {
+    shapes: Vec<crate::c08lang::Shape>,
+    seeds: u64,
+}
+impl Diagnostics {
+    pub fn new(tier: Tier) -> Self {
+        use crate::c08lang::{Kind, shapes};
+        let mut sh: Vec<crate::c08lang::Shape> = shapes(3).into_iter().filter(|s| s.cyclic_nodes().len() >= 2 && s.cyclic_nodes().iter().all(|k| s.kinds[*k] == Kind::Sealed)).collect();
+        if tier == Tier::Quick {
+            sh = sh.into_iter().step_by(3).collect();
+        }
+        Diagnostics { shapes: sh, seeds: if tier == Tier::Thorough { 16 } else { 6 } }
+    }
+}
+impl Check for Diagnostics {
+    fn property(&self) -> &'static str {
+        "C16"
+    }
+    fn name(&self) -> String {
+        "c16-diagnostics".into()
+    }
+    fn len(&self) -> usize {
+        self.shapes.len()
+    }
+    fn describe(&self, i: usize) -> String {
+        let sh = &self.shapes[i];
+        format!("every permutation of this block (an error injected into every contribution), analysed under hash seeds 0..{}:\n{}", self.seeds, sh.program_with_errors(&(0..sh.kinds.len()).collect::<Vec<_>>()))
+    }
+    fn rule(&self) -> String {
+        format!("all blocks of 3 contributions (C08's shape enumeration) that contain a recursive group of >= 2 sealed types ({} shapes), with a type error injected into every contribution, in every permutation; each analysed in-process on a fresh thread under hash seeds 0..{} (getrandom interposer); oracle: verdict and rendered diagnostics (messages and spans, in order) identical across seeds; non-trivial = every shape", self.shapes.len(), self.seeds)
+    }
+    fn run(&mut self, i: usize) -> CaseResult {
+        let sh = self.shapes[i].clone();
+        let mut r = CaseResult::ok("shape").nontrivial(true).key(hash64(&format!("{:?}", sh)));
+        for order in crate::c08lang::permutations(sh.kinds.len()) {
+            let text = sh.program_with_errors(&order);
+            let mut first: Option<String> = None;
+            for seed in 0..self.seeds {
+                let t = text.clone();
+                let out = crate::seed::with_seed(seed * 31 + 5, move || {
+                    let scratch = Scratch::new(&format!("c16d{}", seed));
+                    let path = scratch.write("main.zydeco", &t);
+                    let session = zydeco_session::CompilerSession::default();
+                    let o = crate::front::front_end(&session, &path);
+                    format!("{:?}\n{}", o.verdict.map(|v| v.tag().to_string()), o.rendered.replace(&scratch.dir.display().to_string(), "DIR"))
+                });
+                r = r.count("analyses", 1);
+                match out {
+                    | Ok(o) => match &first {
+                        | None => first = Some(o),
+                        | Some(f) if *f != o => {
+                            let line = f.lines().zip(o.lines()).position(|(a, b)| a != b).unwrap_or(0);
+                            r = r.violation(
+                                "diagnostics of a multi-error block differ between hash seeds",
+                                format!("seed 0 vs seed {}: first differing line {}:\n  {:?}\n  {:?}\n{}", seed, line + 1, f.lines().nth(line), o.lines().nth(line), text),
+                            );
+                            break;
+                        }
+                        | _ => {}
+                    },
+                    | Err(e) => {
+                        r = r.violation("analysis thread died", e);
+                        break;
+                    }
+                }
+            }
+        }
+        r
+    }
+}
+
 pub fn checks(tier: Tier) -> Vec<Box<dyn Check>> {
-    vec![Box::new(Determinism::new(tier))]
+    vec![Box::new(Determinism::new(tier)), Box::new(Diagnostics::new(tier))]
 }
